@@ -53,6 +53,17 @@ CHECKS = {
     ref='6/C15',
     technique='Coq proof (case analysis over typed accessors, clamping) + '
               'exhaustive single-fault enumeration against the real shell'),
+ 'C18': dict(
+    text='complete for the inclusion work list (all finite file systems: '
+         'termination within the stated fuel, each file once, exactly the '
+         'files reachable through non-skipped files, command-line files '
+         'first); the extraction itself (which arguments reach the output) is '
+         'decided by the differential run and the generator oracle only; one '
+         'open known finding (K4)',
+    ref='6/C18',
+    technique='Coq proof (invariant of the work list, potential function for '
+              'termination) + real shell on exhaustive small inclusion graphs '
+              '+ extraction oracle'),
 }
 
 NOT_YET = {}
